@@ -327,6 +327,9 @@ def run(run: Run) -> int:
     cases = [gen_case(run.rng, pools) for _ in range(n)]
     for i in range(0, n, 2000):
         run_cases(run, pt, tl, cases[i:i + 2000])
+    # replay consistency: the first cases once more at the end of the run – a result must not depend on
+    # what was computed in between (stale or poisoned state)
+    run_cases(run, pt, tl, cases[:150])
     return run.finish(RULE, assumptions=[
         "floating-point rounding: relations are compared at 1e-9 relative (incoherent terms with the cancellation-aware rule of DESIGN 4.5)",
         "numpy broadcasting is modelled as the pointwise map (vector_is_map is a theorem about that model; the correspondence compares the real vector call with it)"])
